@@ -25,6 +25,8 @@ def strategy(tier, unit):
 def check(case, ctx):
     M = SF.build(case)
     g = M.g
+    if GR.touch_sibling(g.no, g.choice):      # both settings of an R group used in one process
+        ctx.event("sibling-setting-used-first")
     tag = "%s" % g.crystal_system
     j = case["op"] % g.nsymop
     R, t24 = g.R[j], g.T24[j]
